@@ -315,7 +315,9 @@ def part_deep_model(ctx):
     n = 1200 if ctx.thorough() else 160
     pairs = FAM.gen_pairs(ctx, n, keys=FAM.KEYS_C03 + ['_p', '_', 'new_path', 'deep_distance', '__x'])
     pairs += [([1, 2], [1, 2, {'_a': 5}]), ({'a': 1}, {'a': 1, 'b': None}), ([1], [1, []]), ([1, 2, 3, 4], [1, 3, 4, 5, 6]), ([1, 2, 3], ['a', 'b', 'c']), ({'k': {'_p': [1, 2], 'q': 1}}, {'k': 5}),
-              ({'new_path': [1, 2]}, {'new_path': [1, 3], 'deep_distance': 'x'}), ({'__x': [1, 2, 3], 'a': 1}, {'__x': [4], 'a': 2}), ({'s': {1, 2}}, {'s': {2, 3, (4, 5)}})]
+              ({'new_path': [1, 2]}, {'new_path': [1, 3], 'deep_distance': 'x'}), ({'__x': [1, 2, 3], 'a': 1}, {'__x': [4], 'a': 2}), ({'s': {1, 2}}, {'s': {2, 3, (4, 5)}}),
+              # an added and a removed item of one path: folded into values_changed only after the distance was taken
+              (('c', 1, 2, 0, None, '', 'b'), (3, 1, 'c', 2, 0, None, '', 'b')), (['A', 'B', 'C', 'v'], ['p', 'q', 'r', 'v', 'A', 'B', 'C']), ({'k': ['c', 1, 2, 5, 'b']}, {'k': [3, 1, 'c', 2, 5, 'b']})]
     lines, metas = [], []
     for (t1, t2) in pairs:
         if all(isinstance(v, (int, float)) for v in (t1, t2)):
